@@ -158,6 +158,8 @@ def _int(x=0):
 
 @bi("float")
 def _float(x=0):
+    if hasattr(x, "_as_float"):
+        return x._as_float()
     if isinstance(x, SArr):
         if x.ndim == 0:
             x = x.at(())
